@@ -1,5 +1,6 @@
 import AnsiProofs.Lemmas.Pad
-import AnsiModel.Generated.Methods
+import AnsiModel.Generated.Methods.Rjust
+import AnsiModel.Generated.Methods.Center
 /-
   Property C12, part b — the *generated* (statement-by-statement translated) methods
   `_shift_settings_idx`, `rjust`, `center` of `AnsiModel/Generated/Methods.lean` compute exactly the
@@ -226,6 +227,9 @@ open L
 set_option linter.unusedSimpArgs false   -- both forms of a fact are given to `simp` on purpose
 
 /-! ## `_shift_settings_idx` -/
+
+/-- all three were translated (none fell outside the subset) -/
+theorem translated : Gen.rjustOk = true ∧ Gen.centerOk = true ∧ Gen.shiftSettingsIdxOk = true := by decide
 
 /-- THE GENERATED `_shift_settings_idx` IS `shiftKeys`: ValueError for a negative shift, otherwise every
     key (but 0 when `keep_origin`) moved up by `num` — never `Exc.key`, never `Exc.outside` -/
